@@ -575,6 +575,33 @@ class Env:
         finally:
             _Obs.crash_at = None
 
+    def deliver_with_sweep(self, row_id: int, k: int) -> dict:
+        """Deliver the row; right after the k-th write commit of the delivery (0 = the poll's claim commit) a recovery
+        sweep runs on ANOTHER thread (its own connections, as the processor's sweeper has) and is joined before the
+        handler continues: a sweep at a moment that lies between two commits of one handler.  Harness-only (no model step)."""
+        import threading
+        base = _Obs.count
+        state = {"done": False, "swept": False}
+
+        def hook():
+            if state["done"] or _Obs.count - base != k + 1:
+                return
+            state["done"] = True
+
+            def sweep():
+                _Obs.enabled = False      # the sweep's own commits are not steps of this delivery
+                try:
+                    self.processor.run_recovery()
+                    state["swept"] = True
+                finally:
+                    _Obs.enabled = True
+            t = threading.Thread(target=sweep, name="verif-sweeper")
+            t.start()
+            t.join()
+        r = self.deliver(row_id, on_commit=hook)
+        r["swept"] = state["swept"]
+        return r
+
     def maintenance(self):
         """what the processor loop does between deliveries besides polling: the retention sweep of stage claims.  Not a
         modelled step: for a live workflow it must change nothing (its commit, if any, is not counted)."""
